@@ -47,6 +47,16 @@ def cases(tier, seed):
                         Mach=float(np.round(rng.uniform(0.8, 0.9), 3)), tc=float(np.round(rng.uniform(0.08, 0.14), 3)),
                         grids=[[2, 3], [3, 5], [4, 11], [7, 21], [2, 41], [5, 7]] if tier == "quick" else [[2, 3], [3, 5], [4, 11], [7, 21], [2, 41], [5, 7], [6, 31], [3, 13]],
                         _cost=10))
+    # the same estimates for a multi-section surface (MultiSecGeometry + AeroPoint) vs the identical unified mesh given as one surface
+    for k in range(6 if tier == "quick" else 90):
+        ny = int(rng.integers(5, 10))
+        spec = M.random_spec(rng, half="left", nx=int(rng.integers(2, 4)), ny=ny)
+        spec.update(camber=0.0, twist_tip_deg=0.0, sweep_deg=float(np.round(rng.uniform(0, 35), 2)))
+        ncut = int(rng.integers(1, 3))
+        cuts = sorted(int(x) for x in rng.choice(np.arange(1, ny - 1), size=min(ncut, ny - 2), replace=False))
+        out.append(dict(kind="msec", mesh=spec, cuts=cuts, visc=bool(k % 4 != 3), wave=bool(k % 4 != 2), Mach=float(np.round(rng.uniform(0.82, 0.92), 3)),
+                        alpha=float(np.round(rng.uniform(2, 7), 2)), CL0=float(np.round(rng.uniform(0.1, 0.4), 3)), tc=float(np.round(rng.uniform(0.1, 0.16), 3)),
+                        k_lam=float(rng.choice([0.0, 0.05, 0.3])), _cost=4))
     for k in range(8 if tier == "quick" else 120):
         half = "left" if k % 2 else "full"
         spec = M.random_spec(rng, half=half, nx=2, ny=int(rng.integers(3, 6)))
@@ -153,14 +163,32 @@ def run_wave(c, o):
     cws = np.array([v[1] for v in vals])
     if np.all(np.diff(cls) > 0):
         lift_monotone(o, cls, cws, "alpha")
+    # the same through negative lift: the Korn relation uses the signed lift coefficient, so a down-loaded surface has a HIGHER
+    # critical Mach number; at Msup the wave drag is exactly zero wherever Msup <= Mcrit(CL) and never falls as CL rises
     vals = []
-    for cl0 in (0.0, 0.15, 0.3):
+    for al in (-(c["alpha"] + 3.0), -(c["alpha"] + 1.0), -1.0, c["alpha"], c["alpha"] + 2.0):
+        prob.set_val("alpha", al)
+        zoo.run(prob)
+        cl_, cw_ = get(prob, "CL"), get(prob, "CDw")
+        vals.append((cl_, cw_))
+        mca = korn_mcrit(prob, cl_)
+        if Msup <= mca - 1e-9:
+            o.close("wave/zero_below_Mcrit", cw_, 0.0, rtol=0, atol=0, what="CDw must be exactly zero at M=%.4f <= Mcrit(CL=%.4f)=%.4f" % (Msup, cl_, mca))
+        elif Msup > mca + 1e-3:
+            o.le("wave/positive_above_Mcrit", -cw_, 0.0, slack=-1e-300, what="CDw must be positive at M=%.4f > Mcrit(CL=%.4f)=%.4f" % (Msup, cl_, mca))
+    vals.sort()
+    if np.all(np.diff([v[0] for v in vals]) > 0):
+        lift_monotone(o, [v[0] for v in vals], [v[1] for v in vals], "alpha through negative lift")
+    vals = []
+    for cl0 in (-0.3, -0.15, 0.0, 0.15, 0.3):
         cc = dict(c, CL0=cl0, Mach=Msup)
         p2 = build(cc, c["mesh"])
         zoo.run(p2)
         vals.append((get(p2, "CL"), get(p2, "CDw")))
         o.close("wave/lift_includes_CL0", vals[-1][0], cl0 + get(p2, "CL1"), rtol=1e-12, atol=1e-14)
         mc2 = korn_mcrit(p2, vals[-1][0])
+        if Msup <= mc2 - 1e-9:
+            o.close("wave/zero_below_Mcrit", vals[-1][1], 0.0, rtol=0, atol=0, what="CDw must be exactly zero at M=%.4f <= Mcrit=%.4f (CL0=%g)" % (Msup, mc2, cl0))
         if Msup > mc2 + 1e-3:
             o.le("wave/positive_above_Mcrit", -vals[-1][1], 0.0, slack=-1e-300, what="CDw must be positive above the Mcrit of the surface's total CL (CL0=%g)" % cl0)
     cws = np.array([v[1] for v in vals])
@@ -201,9 +229,61 @@ def run_switch(c, o):
     o.nontrivial = True
 
 
+def run_msec(c, o):
+    import warnings
+
+    import openmdao.api as om
+    from openaerostruct.geometry.geometry_group import MultiSecGeometry, build_sections
+    from openaerostruct.geometry.geometry_unification import unify_mesh
+    from openaerostruct.aerodynamics.aero_groups import AeroPoint
+
+    mesh = M.build(c["mesh"])
+    edges = [0] + list(c["cuts"]) + [mesh.shape[1] - 1]
+    parts = [mesh[:, edges[i]:edges[i + 1] + 1, :].copy() for i in range(len(edges) - 1)]
+    ns = len(parts)
+    surface = {"name": "wing", "is_multi_section": True, "num_sections": ns, "sec_name": ["sec%d" % i for i in range(ns)], "symmetry": True,
+               "S_ref_type": "wetted", "meshes": [q.copy() for q in parts], "CL0": c["CL0"], "CD0": 0.0, "k_lam": c["k_lam"],
+               "t_over_c_cp": [np.array([c["tc"]]) for _ in range(ns)], "c_max_t": 0.303, "with_viscous": c["visc"], "with_wave": c["wave"]}
+    prob = om.Problem(reports=False)
+    ivc = om.IndepVarComp()
+    fl = dict(zoo.FLOW_DEFAULT)
+    fl.update(alpha=c["alpha"], Mach_number=c["Mach"], re=1e6, v=200.0, rho=0.6)
+    for n_ in ("v", "alpha", "Mach_number", "re", "rho", "cg"):
+        ivc.add_output(n_, val=np.array(fl[n_], float), units=zoo.FLOW_UNITS[n_])
+    prob.model.add_subsystem("fc", ivc, promotes=["*"])
+    prob.model.add_subsystem("wing", MultiSecGeometry(surface=surface))
+    secs = build_sections(surface)
+    surface["mesh"] = unify_mesh(secs)
+    prob.model.add_subsystem("aero", AeroPoint(surfaces=[surface]), promotes_inputs=["v", "alpha", "Mach_number", "re", "rho", "cg"])
+    prob.model.connect("wing.wing_unification.wing_uni_mesh", "aero.wing.def_mesh")
+    prob.model.connect("wing.wing_unification.wing_uni_mesh", "aero.aero_states.wing_def_mesh")
+    prob.model.connect("wing.wing_unification.wing_uni_t_over_c", "aero.wing_perf.t_over_c")
+    with warnings.catch_warnings():
+        warnings.simplefilter("ignore")
+        prob.setup()
+    zoo.run(prob)
+    single = build(dict(c, sym=True), dict(array=mesh.tolist(), ny=mesh.shape[1]), visc=c["visc"], wave=c["wave"])
+    zoo.run(single)
+    o.tags = ["multi_section", "nsec=%d" % ns, "visc" if c["visc"] else "novisc", "wave" if c["wave"] else "nowave"]
+    o.close("msec/mesh_is_the_single_mesh", prob.get_val("wing.wing_unification.wing_uni_mesh"), mesh, rtol=1e-13, scale=np.abs(mesh).max())
+    for q in ("CL", "CDi", "CDv", "CDw", "CD"):
+        o.close("msec/" + q, get(prob, q), get(single, q), rtol=1e-10, atol=1e-15, what="%s of the multi-section surface vs the same mesh as one surface" % q)
+    if not c["visc"]:
+        o.close("switch/viscous_off_zero", get(prob, "CDv"), 0.0, rtol=0, atol=0)
+    else:
+        o.le("visc/positive", -get(prob, "CDv"), 0.0, slack=-1e-300)
+    if not c["wave"]:
+        o.close("switch/wave_off_zero", get(prob, "CDw"), 0.0, rtol=0, atol=0)
+    else:
+        mc = korn_mcrit(single, get(single, "CL"))
+        if c["Mach"] > mc + 1e-3:
+            o.le("wave/positive_above_Mcrit", -get(prob, "CDw"), 0.0, slack=-1e-300, what="CDw of the multi-section surface must be positive above Mcrit=%.4f" % mc)
+    o.nontrivial = True
+
+
 def run_case(c):
     o = Obs()
-    {"visc": run_visc, "wave": run_wave, "mesh": run_mesh, "switch": run_switch}[c["kind"]](c, o)
+    {"visc": run_visc, "wave": run_wave, "mesh": run_mesh, "switch": run_switch, "msec": run_msec}[c["kind"]](c, o)
     return o
 
 
